@@ -2,6 +2,7 @@ package sym
 
 import (
 	"fmt"
+	"strings"
 	"go/constant"
 	"go/token"
 	"go/types"
@@ -202,6 +203,24 @@ type HostFunc struct {
 
 func (e *Engine) call(fn *ssa.Function, args []Value, env []Value) Value {
 	name := fn.String()
+	if len(e.summaries) > 0 && e.tolerant == 0 {
+		sv, ok := e.sumCache[fn]
+		if !ok {
+			for suf, v := range e.summaries {
+				if strings.HasSuffix(name, suf) {
+					sv = v
+				}
+			}
+			e.sumCache[fn] = sv
+		}
+		if sv != nil && !e.inSummary {
+			e.res.Summaries[name]++
+			e.inSummary = true
+			r := e.callValue(sv, args, nil)
+			e.inSummary = false
+			return r
+		}
+	}
 	if h, ok := intrinsics[name]; ok {
 		e.res.Stubs[name]++
 		return h(e, fn, args)
@@ -319,7 +338,7 @@ func (e *Engine) exec(fr *frame, in ssa.Instruction) bool {
 	case *ssa.UnOp:
 		fr.set(in, e.unop(in, e.get(fr, in.X)))
 	case *ssa.BinOp:
-		fr.set(in, e.binop(in.Op, in.X.Type(), in.Y.Type(), e.get(fr, in.X), e.get(fr, in.Y)))
+		fr.set(in, e.maybeCut(fr, in, e.binop(in.Op, in.X.Type(), in.Y.Type(), e.get(fr, in.X), e.get(fr, in.Y))))
 	case *ssa.Call:
 		fr.set(in, e.doCall(fr, &in.Call, in))
 	case *ssa.ChangeInterface:
